@@ -291,7 +291,7 @@ def _reference(spec, Rod, rng, L):
         return np.asarray(Q, dtype=float), info
     if ref == "graded":
         # straight, untwisted, but NOT parametrised by arc length: the elements have different reference lengths (mesh grading)
-        a = float(rng.uniform(0.5, 3.0)) * (1.0 if rng.random() < 0.5 else -0.25)
+        a = float(rng.uniform(0.5, 3.0)) * (1.0 if rng.random() < 0.5 else -0.15)     # (a > -0.5: the parametrisation stays monotone)
         info["grading"] = a
         Q = Rod.pose_configuration(nel, lambda xi: np.array([L * (xi + a * xi * xi) / (1.0 + a), 0.0, 0.0]), lambda xi: np.eye(3),
                                    xi1=1.0, r_OP0=r0, A_IB0=A0)
